@@ -5,7 +5,8 @@ from dataclasses import dataclass, field
 from mindsdb_sql.exceptions import PlanningException
 from mindsdb_sql.parser import ast
 from mindsdb_sql.parser.ast import (Select, Identifier, BetweenOperation, Join, Star, BinaryOperation, Constant,
-                                    NativeQuery, Parameter)
+                                    NativeQuery, Parameter, UnaryOperation
+)
 from mindsdb_sql.planner.steps import (FetchDataframeStep, JoinStep, ApplyPredictorStep, SubSelectStep, QueryStep,
                                        MapReduceStep)
 from mindsdb_sql.planner.utils import (query_traversal, filters_to_bin_op)
@@ -483,6 +484,10 @@ class PlanJoinTablesQuery:
         data_conditions = []
 
         def _check_conditions(node, **kwargs):
+            if isinstance(node, UnaryOperation):
+                # NOT (...): the comparisons inside are not conditions of the join
+                binary_ops.add(node.op.lower())
+                return
             if not isinstance(node, BinaryOperation):
                 return
 
